@@ -1140,7 +1140,8 @@ Proof.
     + intros H; inversion H; subst. split; [apply uw_upd_deferred|]. intros C; contradiction.
     + destruct (process_broadcast cfg (upd_deferred s None) m fid ctl fn bytes obj) as [s1 o1] eqn:E.
       apply process_broadcast_spec in E. destruct E as [E _].
-      intros H; inversion H; subst. split; [apply uw_trans with (upd_deferred s None); [apply uw_upd_deferred|apply uw_of_sc; exact E]|]. intros C; contradiction.
+      intros H; inversion H; subst. split; [apply uw_trans with (upd_deferred s None); [apply uw_upd_deferred|apply uw_of_sc; exact E]|].
+      intros _. right. destruct E as (_ & _ & _ & _ & _ & E & _). exact E.
     + intros H. split.
       * inversion H; subst. apply uw_of_sc, sc_bcast_confirmed.
       * inversion H; subst. intros C; contradiction.
